@@ -1,5 +1,6 @@
 SPECIFICATION Spec
 CONSTANT TraceFile = "trace.ndjson"
+CONSTANT Focus = "none"
 INVARIANT Summary
 POSTCONDITION Consumed
 CHECK_DEADLOCK FALSE
